@@ -26,8 +26,8 @@ def bounds(tier):
 
 def configs(tier):
     out = [dict(kind="tables", dim=d) for d in (1, 2, 3)]
-    shapes2 = [[2, 3], [3, 2]] + ([[1, 4], [4, 4]] if tier != "quick" else [])
-    shapes3 = [[2, 3, 2]] + ([[3, 4, 3], [1, 2, 3]] if tier != "quick" else [])
+    shapes2 = [[2, 3], [3, 2]] + ([[1, 4], [4, 4], [5, 3], [1, 1]] if tier != "quick" else [])
+    shapes3 = [[2, 3, 2]] + ([[3, 4, 3], [1, 2, 3], [2, 2, 4], [3, 1, 1]] if tier != "quick" else [])
     for shape in shapes2 + shapes3:
         dim = len(shape)
         for a in range(dim):
